@@ -11,8 +11,12 @@ import Mathlib.Tactic.NormNum
 * `lu_solve_unique`, `residual_zero_characterises`: for an invertible matrix a zero residual characterises *the* solution;
 * `minNorm_unique_and_minimal`: normal equations + `x ∈ range Aᵀ` characterise the unique minimum-norm least-squares
   solution (any ordered field, any finite index types);
-* `*_sound`: acceptance by the exact-rational contract implies the stated inequality (LAPACK itself is not modelled:
-  the check is *partial* in that sense);
+* the contracts themselves (`luAccept`, `lsAccept`, `minNormAccept`, `svdAccept`, `eigAccept`, `invAccept`, `pinvAccept`) are
+  executable Bool predicates whose *definition is the statement*; their unfoldings (`*_sound`) live in
+  `SimbodyProofs/C24_lemmas.lean` and are not counted as property theorems.  NOT proved: that the exact reference
+  (`rref`/`nullBasis`/`exactRank`) is correct (it is certified at run time by `refAccept` + `minNormAccept`: every null vector is
+  checked to lie exactly in the kernel, the vectors have a unit pattern, count + rank = n, rank A = rank Aᵀ, and QTZ's reported
+  rank must agree), nor any link from contract acceptance to the hypotheses of `minNorm_unique_and_minimal`;
 * `svdRank_*`: the rank-by-threshold rule as coded.
 -/
 set_option linter.unusedSectionVars false
@@ -84,53 +88,7 @@ theorem residual_zero_characterises (A : Matrix m m K) (b x : m → K) (hA : A.d
   · intro h; rw [h, mulVec_mulVec, mul_nonsing_inv A hu, one_mulVec]
 end Mat
 
-/-! ## soundness of the contracts (`contract_sound`) -/
-
-/-- LU / Cholesky / square solves: accepted ⇒ every row satisfies the componentwise backward-error bound -/
-theorem luAccept_sound (tol : Rat) (A : Mat) (b x : List Rat) (h : luAccept tol A b x = true) :
-    ∀ p ∈ A.zip b, absR (dot p.1 x - p.2) ≤ tol * (absDot p.1 x + absR p.2) := by
-  unfold luAccept at h
-  simp only [List.all_eq_true, decide_eq_true_eq] at h
-  intro p hp; exact h p hp
-
-/-- least squares: accepted ⇒ every component of `Aᵀ(Ax − b)` is within the bound -/
-theorem lsAccept_sound (tol : Rat) (A : Mat) (n : Nat) (b x : List Rat) (h : lsAccept tol A n b x = true) :
-    ∀ j < n, absR (dot (col A j) ((A.zip b).map (fun p => dot p.1 x - p.2)))
-        ≤ tol * absDot (col A j) ((A.zip b).map (fun p => absDot p.1 x + absR p.2)) := by
-  unfold lsAccept at h
-  simp only [List.all_eq_true, decide_eq_true_eq, List.mem_range] at h
-  intro j hj; exact h j hj
-
-/-- minimum norm: accepted ⇒ every listed vector is *exactly* a null vector of `A` and `x` is orthogonal to it up to `tol` -/
-theorem minNormAccept_sound (tol : Rat) (A : Mat) (x : List Rat) (N : List (List Rat)) (h : minNormAccept tol A x N = true) :
-    ∀ v ∈ N, (∀ e ∈ mulVec A v, e = 0) ∧ dot x v * dot x v ≤ tol * tol * (dot x x) * (dot v v) := by
-  unfold minNormAccept at h
-  simp only [List.all_eq_true, Bool.and_eq_true, decide_eq_true_eq] at h
-  intro v hv; exact h v hv
-
-/-- inverse: accepted ⇒ `AX` and `XA` are within the normwise bound of the identity -/
-theorem invAccept_sound (tol : Rat) (A X : Mat) (h : invAccept tol A X = true) :
-    ∀ i < A.length, ∀ j < A.length,
-      absR (dot (A.getD i []) ((transpose X A.length).getD j []) - kron i j)
-        ≤ tol * (absSum (A.getD i []) * maxAbs ((transpose X A.length).getD j []) + kron i j) ∧
-      absR (dot (X.getD i []) ((transpose A A.length).getD j []) - kron i j)
-        ≤ tol * (maxAbs (X.getD i []) * absSum ((transpose A A.length).getD j []) + kron i j) := by
-  unfold invAccept at h
-  simp only [List.all_eq_true, Bool.and_eq_true, decide_eq_true_eq, List.mem_range] at h
-  intro i hi j hj; exact h i hi j hj
-
-/-- SVD: accepted ⇒ singular values non-negative and descending, both factor matrices orthonormal up to `tol`, and the
-product reproduces every entry of `A` up to `tol·σ₁` -/
-theorem svdAccept_sound (tol : Rat) (A : Mat) (n : Nat) (Ut : Mat) (S : List Rat) (Vt : Mat)
-    (h : svdAccept tol A n Ut S Vt = true) :
-    descendingNonneg S = true ∧ orthoAccept tol Ut = true ∧ orthoAccept tol Vt = true ∧
-    ∀ i < A.length, ∀ j < n,
-      absR ((A.getD i []).getD j 0 -
-        ((List.range S.length).map (fun k => (Ut.getD k []).getD i 0 * S.getD k 0 * (Vt.getD k []).getD j 0)).foldl (· + ·) 0)
-        ≤ tol * S.getD 0 0 := by
-  unfold svdAccept at h
-  simp only [Bool.and_eq_true, List.all_eq_true, decide_eq_true_eq, List.mem_range] at h
-  exact ⟨h.1.1.1, h.1.1.2, h.1.2, fun i hi j hj => h.2 i hi j hj⟩
+/-! ## meaning of the `descendingNonneg` check used by the SVD contract -/
 
 /-- what `descendingNonneg` means -/
 theorem descendingNonneg_spec (l : List Rat) (h : descendingNonneg l = true) :
@@ -153,28 +111,6 @@ theorem descendingNonneg_spec (l : List Rat) (h : descendingNonneg l = true) :
         rcases List.mem_cons.mp hc with rfl | hc'
         · exact le_trans hb h.1
         · exact q c hc'
-
-/-- eigen-decomposition: accepted ⇒ every returned pair is a non-degenerate vector satisfying `A v = λ v` (real and
-imaginary parts) within the componentwise bound -/
-theorem eigAccept_sound (tol : Rat) (A : Mat) (lr li : List Rat) (Vr Vi : Mat) (h : eigAccept tol A lr li Vr Vi = true) :
-    ∀ k < A.length, eigPairAccept tol A (lr.getD k 0) (li.getD k 0) (Vr.getD k []) (Vi.getD k []) = true := by
-  unfold eigAccept at h
-  simp only [Bool.and_eq_true, List.all_eq_true, List.mem_range] at h
-  intro k hk; exact h.2 k hk
-
-/-- … and what one accepted pair says -/
-theorem eigPairAccept_sound (tol : Rat) (A : Mat) (lr li : Rat) (vr vi : List Rat) (h : eigPairAccept tol A lr li vr vi = true) :
-    (1 : Rat) / 4 ≤ dot vr vr + dot vi vi ∧
-    ∀ i < A.length,
-      absR (dot (A.getD i []) vr - (lr * vr.getD i 0 - li * vi.getD i 0))
-        ≤ tol * (absDot (A.getD i []) (List.zipWith (fun a b => absR a + absR b) vr vi)
-                 + (absR lr + absR li) * (List.zipWith (fun a b => absR a + absR b) vr vi).getD i 0) ∧
-      absR (dot (A.getD i []) vi - (lr * vi.getD i 0 + li * vr.getD i 0))
-        ≤ tol * (absDot (A.getD i []) (List.zipWith (fun a b => absR a + absR b) vr vi)
-                 + (absR lr + absR li) * (List.zipWith (fun a b => absR a + absR b) vr vi).getD i 0) := by
-  unfold eigPairAccept at h
-  simp only [Bool.and_eq_true, List.all_eq_true, decide_eq_true_eq, List.mem_range] at h
-  exact ⟨h.1, fun i hi => h.2 i hi⟩
 
 /-! ## the rank-by-threshold rule of `FactorSVDRep::computeSVD` -/
 section Rank
@@ -215,13 +151,6 @@ theorem svdRank_antitone (values : List K) (r1 r2 : K) (h12 : r1 ≤ r2) (h0 : 0
   simp only [decide_eq_true_eq] at hv ⊢
   exact lt_of_le_of_lt (mul_le_mul_of_nonneg_right h12 h0) hv
 end Rank
-
-/-- the default threshold is `max(nRow,nCol)·significant` -/
-theorem defaultRcond_spec (m n : Nat) (s : Rat) : defaultRcond (fun k => (k : Rat)) m n s = (max m n : Nat) * s := by
-  unfold defaultRcond
-  by_cases h : m > n
-  · simp [h, max_eq_left (le_of_lt h)]
-  · simp [h, max_eq_right (not_lt.mp h)]
 
 /-! ## non-vacuity -/
 example : luAccept (1 / 1000) [[2, 1], [1, 3]] [3, 4] [1, 1] = true := by
